@@ -175,7 +175,7 @@ def gen_op(rng, c, wild=False):
 
 def motif(rng):
     """shorthand-relevant neighbourhoods and their near misses"""
-    k = rng.randrange(14)
+    k = rng.randrange(17)
     W = lambda: rng.choice(["NonZero", "EvenOdd"])
     if k == 0:
         return [("Close",), ("Stroke",)]
@@ -227,6 +227,12 @@ def motif(rng):
         between = rng.choice([[("Close",)], [("Rect", gen_f(rng), gen_f(rng), gen_f(rng), gen_f(rng))], [("Stroke",)], [("Close",), ("Stroke",)],
                               [("EndPath",)], [("Fill", W())]])
         return [("MoveTo", gen_pt(rng)), ("LineTo", p0)] + between + [("CurveTo", p0, c2, p)]
+    if k in (14, 15, 16):   # a curve whose first control point is an EARLIER point of the path (not the current one), and the true one
+        pa, pb, c2, p = gen_pt(rng), gen_pt(rng), gen_pt(rng), gen_pt(rng)
+        first = rng.choice([("MoveTo", pa), ("LineTo", pa), ("CurveTo", gen_pt(rng), gen_pt(rng), pa)])
+        second = rng.choice([("MoveTo", pb), ("LineTo", pb), ("CurveTo", gen_pt(rng), gen_pt(rng), pb), ("CurveTo", pa, gen_pt(rng), pb)])
+        c1 = pa if rng.random() < 0.6 else pb
+        return [first, second, ("CurveTo", c1, c2, p)]
     if k == 12:   # CurveTo first: no current point yet, c1 = (0,0)
         return [("CurveTo", (F(0), F(0)), gen_pt(rng), gen_pt(rng))]
     return [("TextNewline",), rng.choice([("TextNewline",), ("TextDrawAdjusted", (gen_string(rng),)), ("EndText",)])]
